@@ -13,6 +13,7 @@ PROP = {
              "key disappeared after a later batch (re-keying after a convergence of the URL tree) or a restart happened with a non-empty state; "
              "distinct = distinct canonical JSON of the whole case"),
     "assumptions": [
+        "the values that fill the parameter positions of the generated URLs include a path segment that contains the delimiter of the persisted endpoint keys (arn:aws:s3:::logs - an S3 ARN; keys are spelled <method>:::<url>)",
         "the gateway's log level (LOG_LEVEL: off in three cases of eight, else error / info / debug / trace; what is logged is thrown away, what a log statement does to build its arguments happens) is a generated part of every case of TestBatchInvariance and TestBatchInvarianceProductionTree: no answer may depend on it; a failing case reports its level",
         "every case runs with a generated local time zone of the process (UTC, +3 h, -5 h, +5:30, +12:45, -12 h): the statistics carry absolute instants and may not depend on it",
         "in a quarter of the stateful runs one flush cannot write its state file (a directory sits at its path) while a later flush without refused records succeeds and no restart lies in between: nothing may be lost (what a restart right after a failed write loses is not judged)",
@@ -31,6 +32,7 @@ PROP = {
         {"pkg": "c15", "test": "TestWitnessF2ConstantBesideParameter", "kind": "plain"},
         {"pkg": "c15", "test": "TestWitnessF3LostTerminalValue", "kind": "plain"},
         {"pkg": "c15", "test": "TestWitnessF4BatchRefused", "kind": "plain"},
+        {"pkg": "c15", "test": "TestRegressionFixedDefects", "kind": "plain"},
     ],
     "technique": ("property-based testing (rapid): conservation against an independent fold over the raw records, metamorphic batch-invariance "
                   "(single batch vs two random partitions), persistence round trip and restart histories through the real state file"),
